@@ -48,6 +48,12 @@ PRIOR_RATE = 10.0
 EPS = [1e-3, 0.01, 0.05, 0.1, 0.5]
 STEPS = [1, 2, 3, 5, 10, 30]
 MASSES = ["ones", "eye", "diag1", "diag2", "diag3", "dense1", "dense2", "dense3"]
+MASSES_QUICK = ["ones", "eye", "diag1", "diag2", "dense1", "dense2"]
+
+
+def masses(tier):
+    return MASSES if tier == "thorough" else MASSES_QUICK
+
 
 # -- tolerances (see assumptions in the evidence) ---------------------------------------
 BIG = 1e2            # reference trajectory leaves [-BIG, BIG] -> unstable regime, excluded
@@ -205,7 +211,7 @@ def corner(d, k, seed):
 
 
 def corner_ids(d, tier):
-    ks = range(16) if tier == "thorough" else (0, 6, 9, 15)
+    ks = (0, 3, 5, 6, 9, 10, 12, 15) if tier == "thorough" else (0, 6, 9, 15)
     seen = {}
     for k in ks:
         q, p = corner(d, k, 0)
@@ -360,13 +366,17 @@ class IntegratorRecorder:
 
 
 class JointInjector:
-    """stands where the joint stands; answers NaN on the scripted call numbers"""
+    """stands where the joint stands; answers NaN at call number `pos` counted from the
+    start of a trial (= from the start of the step, or from the previous NaN answer, which
+    ends a trial), for the first `trials` trials"""
 
-    def __init__(self, real, nan_calls):
+    def __init__(self, real, pos, trials):
         self.id = "joint.inj"
         self.real = real
-        self.nan_calls = set(nan_calls)
-        self.n = 0
+        self.pos = pos
+        self.trials = trials
+        self.since = 0
+        self.given = 0
 
     @property
     def sample_shape(self):
@@ -374,29 +384,68 @@ class JointInjector:
 
     def __call__(self, *a, **kw):
         v = self.real(*a, **kw)
-        i = self.n
-        self.n += 1
-        if i in self.nan_calls:
+        i = self.since
+        self.since += 1
+        if i == self.pos and self.given < self.trials:
+            self.given += 1
+            self.since = 0
             return v * float("nan")
         return v
 
 
 # -- implementation drivers -----------------------------------------------------------------
 
-class Env:
-    """the target and a LeapfrogIntegrator, both built from JSON"""
+HOWS = ("ctor", "assigned", "state_dict", "tuned")
 
-    def __init__(self, kind, d, split, q, eps, L):
+
+def other_eps(eps):
+    return EPS[(EPS.index(eps) + 2) % len(EPS)] if eps in EPS else 0.03
+
+
+def other_steps(L):
+    return 4 if L != 4 else 7
+
+
+class Env:
+    """the target and a LeapfrogIntegrator, both built from JSON.  `how` says how the
+    integrator came to have its step size and number of steps:
+      ctor        constructed with them
+      assigned    constructed with another step size, then `integrator.step_size = eps`
+                  (what AdaptiveStepSize, DualAveragingStepSize and the warm-up do)
+      state_dict  constructed with other values, then load_state_dict() of the (JSON
+                  round-tripped) state_dict() of an integrator that has them (checkpoint restart)
+      tuned       constructed with another step size inside an HMCOperator, then
+                  operator.set_adaptable_parameter(log eps) (what MCMCOperator.tune does)
+    `eps` is afterwards read back from the integrator."""
+
+    def __init__(self, kind, d, split, q, eps, L, how="ctor"):
         import torch
 
         spec, ids = target_spec(kind, d, split, q)
-        spec = spec + [{"id": "lf", "type": "LeapfrogIntegrator", "steps": int(L), "step_size": float(eps)}]
+        e0 = float(eps) if how == "ctor" else other_eps(eps)
+        L0 = int(L) if how != "state_dict" else other_steps(L)
+        spec = spec + [{"id": "lf", "type": "LeapfrogIntegrator", "steps": L0, "step_size": e0}]
         self.dic = tt.load(spec)
         self.joint = self.dic["joint"]
         self.lf = self.dic["lf"]
         self.params = [self.dic[i] for i in ids]
         self.blocks = _blocks(split)
         self.torch = torch
+        if how == "assigned":
+            self.lf.step_size = float(eps)
+        elif how == "state_dict":
+            donor = tt.load({"id": "lf", "type": "LeapfrogIntegrator", "steps": int(L),
+                             "step_size": float(eps)})["lf"]
+            self.lf.load_state_dict(json.loads(json.dumps(donor.state_dict())))
+        elif how == "tuned":
+            tt.load(operator_spec(ids, e0, L0, np.ones(d), integrator="lf"), self.dic)
+            self.dic["hmc.operator"].set_adaptable_parameter(math.log(float(eps)))
+        elif how != "ctor":
+            raise ValueError(how)
+        self.eps = float(self.lf.step_size)
+        if self.lf.steps != int(L) or not abs(self.eps - eps) <= 1e-14 * eps:
+            raise RuntimeError(f"integrator reports step_size={self.lf.step_size}, steps={self.lf.steps} "
+                               f"after '{how}' to ({eps}, {L})")
 
     def set_q(self, q):
         for p, (a, b) in zip(self.params, self.blocks):
@@ -506,7 +555,7 @@ def traj_cases(tier):
     out = []
     for name, (kind, d, split) in tab.items():
         cids = corner_ids(d, tier)
-        for mi, mass in enumerate(MASSES):
+        for mi, mass in enumerate(masses(tier)):
             for ei, eps in enumerate(EPS):
                 for li, L in enumerate(STEPS):
                     for ci, k in enumerate(cids):
@@ -514,7 +563,15 @@ def traj_cases(tier):
                         # in four, the corner rotating with the other coordinates of the case
                         jac = (ci % 4 == (mi + ei + li) % min(4, len(cids)))
                         out.append({"kind": "traj", "target": name, "mass": mass, "eps": eps, "L": L,
-                                    "corner": k, "jac": jac})
+                                    "corner": k, "jac": jac, "how": "ctor"})
+        # the same integrator reached through the other ways a step size / step count is set
+        for mi, mass in enumerate(MASSES if tier == "thorough" else ("ones", "dense1")):
+            for ei, eps in enumerate(EPS):
+                for li, L in enumerate(STEPS):
+                    for hi, how in enumerate(HOWS[1:]):
+                        k = cids[(mi + ei + li + hi) % len(cids)]
+                        out.append({"kind": "traj", "target": name, "mass": mass, "eps": eps, "L": L,
+                                    "corner": k, "jac": False, "how": how})
     return out
 
 
@@ -529,7 +586,8 @@ def run_traj(case, tab, seed):
     q0, p0 = corner(d, case["corner"], seed)
     res = {"bad": [], "status": None, "metrics": {}}
     status, amp = classify(target, M, q0, p0, eps, L)
-    env = Env(kind, d, split, q0, eps, L)
+    how = case.get("how", "ctor")
+    env = Env(kind, d, split, q0, eps, L, how)
     check_target_matches_oracle(env, target, q0, case["target"])
     st, q1, p1 = env.integrate(q0, p0, Minv)
     if st == "error":
@@ -568,7 +626,7 @@ def run_traj(case, tab, seed):
     res["metrics"]["dH"] = dH
     res["metrics"]["H0"] = H0
     if eps <= 0.05:
-        env2 = Env(kind, d, split, q0, eps / 2.0, 2 * L)
+        env2 = Env(kind, d, split, q0, eps / 2.0, 2 * L, how)
         st3, q3, p3 = env2.integrate(q0, p0, Minv)
         if st3 != "ok":
             res["bad"].append(("half_step_run_raises", f"eps/2, 2L run raised {q3}"))
@@ -637,12 +695,16 @@ def op_cases(tier):
     tab = target_table(tier)
     out = []
     for name, (kind, d, split) in tab.items():
-        for mass in MASSES:
+        for mass in masses(tier):
             for eps, L in OP_EL:
                 for zi in (0, 1):
-                    for mode in ("init", "replaced"):
+                    for mode in ("init", "replaced", "tuned"):
                         out.append({"kind": "op", "target": name, "mass": mass, "eps": eps, "L": L,
                                     "z": zi, "mode": mode, "fail": None})
+                    # the second of two steps of the same operator (first one accepted / rejected)
+                    for prelude in ("accept", "reject"):
+                        out.append({"kind": "op", "target": name, "mass": mass, "eps": eps, "L": L,
+                                    "z": zi, "mode": "init", "fail": None, "prelude": prelude})
         # NaN answers of the target: every call position of one trial, for one and two
         # consecutive failing trials; and all ten trials failing
         eps, L = 0.1, 3
@@ -675,6 +737,20 @@ def _arr(params):
     return np.concatenate([p.tensor.detach().numpy().reshape(-1) for p in params]).copy()
 
 
+N_ANSWERS = 24
+
+
+def answers(d, first, seed):
+    """pairwise different standard-normal answers for the successive momentum draws of one
+    step (generic, magnitudes 0.5 .. 2.2)"""
+    ks = (6, 9, 3, 12, 5, 10, 1, 14) if first == 0 else (9, 6, 12, 3, 10, 5, 14, 1)
+    out = []
+    for j in range(N_ANSWERS):
+        _, p = corner(d, ks[j % len(ks)], seed)
+        out.append(p * (1.0 + 0.045 * (j // len(ks)) + 0.02 * j))
+    return out
+
+
 def run_op(case, tab, seed):
     import torch
 
@@ -683,16 +759,21 @@ def run_op(case, tab, seed):
     M = ref.mass_menu(d)[case["mass"]]
     eps, L = case["eps"], case["L"]
     q0, _ = corner(d, 0 if case["z"] == 0 else 15, seed)
-    z_good = z_menu(d, case["z"], seed)
+    zs = answers(d, case["z"], seed)
     res = {"bad": [], "status": None, "metrics": {}}
-    status, amp = classify(target, M, q0, momentum_of(M, z_good), eps, L)
-    if status != "stable":
-        res["status"] = "unstable_excluded"
-        return res
-    res["status"] = "stable"
     fail = case["fail"]
+    n_fail = fail["trials"] if fail else 0
+    # every answer that can become the momentum of a trajectory must give a regular one
+    relevant = zs[:1] if fail is None else zs
+    for z in relevant:
+        status, amp = classify(target, M, q0, momentum_of(M, z), eps, L)
+        if status != "stable":
+            res["status"] = "unstable_excluded"
+            return res
+    res["status"] = "stable"
     spec, ids = target_spec(kind, d, split, q0)
-    dic = tt.load(spec + [{"id": "lf", "type": "LeapfrogIntegrator", "steps": int(L), "step_size": float(eps)}])
+    e_ctor = other_eps(eps) if case["mode"] == "tuned" else float(eps)
+    dic = tt.load(spec + [{"id": "lf", "type": "LeapfrogIntegrator", "steps": int(L), "step_size": e_ctor}])
     params = [dic[i] for i in ids]
     a = float(dic["joint"]())
     b = target.logp(q0)
@@ -701,66 +782,75 @@ def run_op(case, tab, seed):
     rec = IntegratorRecorder(dic["lf"], params)
     dic["lf.rec"] = rec
     joint_ref = "joint"
-    normals = [z_good]
-    n_fail = 0
+    normals = list(zs)
     if fail is not None:
-        n_fail = fail["trials"]
         if fail["how"] == "inject":
-            # one trial makes between 1 and L+3 calls of the joint before it fails at `pos`
-            # (a failing trial stops at its NaN answer): the k-th trial starts at call k*(pos+1)
-            nan_calls = {k * (fail["pos"] + 1) + fail["pos"] for k in range(n_fail)}
-            dic["joint.inj"] = JointInjector(dic["joint"], nan_calls)
+            dic["joint.inj"] = JointInjector(dic["joint"], fail["pos"], n_fail)
             joint_ref = "joint.inj"
-            normals = [z_good] * min(n_fail + 1, 10)
         else:
-            zb = big_answer(M)
-            normals = [zb] * min(n_fail, 10) + ([z_good] if n_fail < 10 else [])
+            normals = [big_answer(M)] * n_fail + normals
     M_init = mass_alt(d, case["mass"]) if case["mode"] == "replaced" else M
     tt.load(operator_spec(ids, eps, L, M_init, joint=joint_ref, integrator="lf.rec"), dic)
     op = dic["hmc.operator"]
     if case["mode"] == "replaced":
         dic["hmc.mass.matrix"].tensor = torch.tensor(np.asarray(M))
+    elif case["mode"] == "tuned":
+        op.set_adaptable_parameter(math.log(eps))
     script = Script(normals)
+    prelude = case.get("prelude")
     try:
         with scripted(script):
+            if prelude:
+                # an earlier step of the same operator, accepted or rejected by the chain
+                h_first = op.step()
+                if prelude == "accept" and math.isfinite(float(h_first)):
+                    op.accept()
+                else:
+                    op.reject()
+                q0 = _arr(params)
+                rec.calls.clear()
+                status, amp = classify(target, M, q0, momentum_of(M, normals[script.n_normal]), eps, L)
+                if status != "stable":
+                    res["status"] = "unstable_excluded"
+                    return res
             h = op.step()
     except ScriptExhausted:
-        res["bad"].append(("unexpected_retry",
-                           f"the operator asked for more momentum draws ({script.n_normal + 1}) than the "
-                           f"{n_fail} failing trial(s) explain; integrator calls: "
-                           f"{[(c['ok']) for c in rec.calls]}"))
-        return res
+        raise RuntimeError(f"{case}: more than {len(normals)} momentum draws in one step")
     except Exception as e:
-        res["bad"].append(("operator_raises", f"{type(e).__name__}: {e}"))
+        if fail is not None:
+            # an exception escaping step() after a numerical failure is a loud failure
+            res["metrics"]["failed_loudly"] = f"{type(e).__name__}: {e}"
+        else:
+            res["bad"].append(("operator_raises", f"{type(e).__name__}: {e}"))
         return res
     hval = float(h)
     q_after = _arr(params)
+    res["metrics"]["draws"] = script.n_normal
     if fail is not None and fail["how"] == "inject":
-        inj = dic["joint.inj"]
-        if n_fail < 10 and not inj.nan_calls <= set(range(inj.n)):
-            raise RuntimeError(f"injection positions {sorted(inj.nan_calls)} not all reached ({inj.n} calls)")
-    completed = bool(rec.calls) and rec.calls[-1]["ok"] and np.array_equal(q_after, rec.calls[-1]["q_out"])
-    if n_fail >= 10 and not (fail["how"] == "overflow" and completed and math.isfinite(hval)):
-        # every trial failed: either signalled by an infinite value, or positions untouched
-        restored = bool(np.array_equal(q_after, q0))
-        if not (math.isinf(hval) or (restored and not math.isnan(hval))):
-            res["bad"].append(("all_trials_failed_state",
-                               f"all 10 trials failed numerically; step() returned {hval!r} and left the "
-                               f"positions at {q_after.tolist()} (started at {q0.tolist()})"))
+        res["metrics"]["nan_given"] = dic["joint.inj"].given
+    if math.isinf(hval):
+        # the operator signals "no proposal": the chain rejects and restores (nothing to demand)
+        res["metrics"]["gave_up"] = True
         return res
-    if not rec.calls or not rec.calls[-1]["ok"]:
-        res["bad"].append(("no_completed_trajectory",
-                           f"step() returned {hval!r} after {n_fail} failing trial(s) although the next trial "
-                           f"meets no failure; integrator calls completed: {[c['ok'] for c in rec.calls]}"))
+    if math.isnan(hval):
+        res["bad"].append(("hastings_nan", f"step() returned NaN; positions {q_after.tolist()}"))
+        return res
+    last_ok = bool(rec.calls) and rec.calls[-1]["ok"]
+    if np.array_equal(q_after, q0) and not last_ok:
+        # finite value, nothing moved, no trajectory completed last: a null move
+        res["metrics"]["null_move"] = True
+        return res
+    if not last_ok:
+        res["bad"].append(("positions_left",
+                           f"step() returned {hval!r} and moved the positions to {q_after.tolist()} although "
+                           f"the last integrator call did not complete"))
         return res
     c = rec.calls[-1]
-    if fail is None and len(rec.calls) != 1:
-        res["bad"].append(("integrator_calls", f"{len(rec.calls)} integrator calls in one step without failure"))
-        return res
     if not np.array_equal(c["q_in"], q0):
         res["bad"].append(("trajectory_start",
-                           f"after {n_fail} failed trial(s) the trajectory started at {c['q_in'].tolist()}, "
-                           f"the current state is {q0.tolist()}"))
+                           f"after {len(rec.calls) - 1} earlier integrator call(s) / {script.n_normal} momentum "
+                           f"draws the trajectory started at {c['q_in'].tolist()}, the current state is "
+                           f"{q0.tolist()}"))
     if not np.array_equal(q_after, c["q_out"]):
         res["bad"].append(("positions_left",
                            f"integrator ended at {c['q_out'].tolist()}, parameters hold {q_after.tolist()}"))
@@ -889,46 +979,63 @@ def _work(chunk):
 
 def sig_of(case, name):
     kind = _tab("thorough")[case["target"]][0]
-    return {"part": case["kind"], "check": name, "model": kind}
+    sig = {"part": case["kind"], "check": name, "model": kind}
+    if case["kind"] == "traj":
+        sig["how"] = case.get("how", "ctor")
+    elif case["kind"] == "op":
+        sig["mode"] = case.get("mode")
+        sig["failure"] = case["fail"]["how"] if case.get("fail") else None
+    return sig
 
 
 def _order_checks(results, run_violation):
-    """energy error order per group (target, mass, eps, L) over its corner points"""
+    """energy error order: per (target, mass, eps, L) the largest |dH| over all its points is
+    the yardstick for 'non-degenerate'; per way of setting the step size the maxima over the
+    corner points at eps and eps/2 are compared, and every non-degenerate point on its own"""
     groups = {}
     for case, r in results:
         if case["kind"] != "traj" or "dH2" not in r["metrics"]:
             continue
         key = (case["target"], case["mass"], case["eps"], case["L"])
         groups.setdefault(key, []).append((case, r["metrics"]))
-    n_groups = 0
-    n_points = 0
-    skipped = 0
-    worst = [2.0, 2.0]
-    for key, items in groups.items():
-        S1 = max(abs(m["dH"]) for _, m in items)
-        S2 = max(abs(m["dH2"]) for _, m in items)
-        Hs = max(abs(m["H0"]) for _, m in items)
-        if S1 < 1e-12 * (1 + Hs):
-            skipped += 1
+    st = {"groups": 0, "points": 0, "skipped": 0, "gmin": 2.0, "gmax": 2.0, "pmin": 2.0, "pmax": 2.0}
+    for key, allitems in groups.items():
+        S = max(abs(m["dH"]) for _, m in allitems)
+        Hs = max(abs(m["H0"]) for _, m in allitems)
+        if S < 1e-12 * (1 + Hs):
+            st["skipped"] += 1
             continue
-        n_groups += 1
-        order = math.log2(S1 / S2) if S2 > 0 else math.inf
-        worst = [min(worst[0], order), max(worst[1], order)]
-        if not ORDER_GROUP[0] <= order <= ORDER_GROUP[1]:
-            case = items[0][0]
-            run_violation(dict(case, group=True), f"energy error over the corner points of {key}: max|dH| at eps = "
-                          f"{S1:.3e}, at eps/2 (same trajectory length) = {S2:.3e}: order {order:.3f}, "
-                          f"expected 2 (window {ORDER_GROUP})", sig_of(case, "energy_error_order"))
-            continue
-        for case, m in items:
-            if abs(m["dH"]) >= NONDEGENERATE * S1 and abs(m["dH2"]) > 0:
-                n_points += 1
-                o = math.log2(abs(m["dH"]) / abs(m["dH2"]))
-                if not ORDER_POINT[0] <= o <= ORDER_POINT[1]:
-                    run_violation(case, f"energy error {m['dH']:.6e} at eps={case['eps']}, L={case['L']} and "
-                                  f"{m['dH2']:.6e} at eps/2, 2L: order {o:.3f}, expected 2 (window {ORDER_POINT})",
-                                  sig_of(case, "energy_error_order"))
-    return n_groups, n_points, skipped, worst
+        for how in HOWS:
+            items = [(c, m) for c, m in allitems if c.get("how", "ctor") == how]
+            if not items:
+                continue
+            S1 = max(abs(m["dH"]) for _, m in items)
+            S2 = max(abs(m["dH2"]) for _, m in items)
+            if S1 < NONDEGENERATE * S:
+                continue
+            window = ORDER_GROUP if len(items) >= 3 else ORDER_POINT
+            st["groups"] += 1
+            order = math.log2(S1 / S2) if S2 > 0 else math.inf
+            st["gmin"] = min(st["gmin"], order)
+            st["gmax"] = max(st["gmax"], order)
+            if not window[0] <= order <= window[1]:
+                case = items[0][0]
+                run_violation(dict(case, group=True),
+                              f"energy error over the {len(items)} corner point(s) of {key} (step size set by "
+                              f"'{how}'): max|dH| at eps = {S1:.3e}, at eps/2 with 2L steps = {S2:.3e}: order "
+                              f"{order:.3f}, expected 2 (window {window})", sig_of(case, "energy_error_order"))
+                continue
+            for case, m in items:
+                if abs(m["dH"]) >= NONDEGENERATE * S and abs(m["dH2"]) > 0:
+                    st["points"] += 1
+                    o = math.log2(abs(m["dH"]) / abs(m["dH2"]))
+                    st["pmin"] = min(st["pmin"], o)
+                    st["pmax"] = max(st["pmax"], o)
+                    if not ORDER_POINT[0] <= o <= ORDER_POINT[1]:
+                        run_violation(case, f"energy error {m['dH']:.6e} at eps={case['eps']}, L={case['L']} and "
+                                      f"{m['dH2']:.6e} at eps/2, 2L: order {o:.3f}, expected 2 (window "
+                                      f"{ORDER_POINT})", sig_of(case, "energy_error_order"))
+    return st
 
 
 def run(run):
@@ -948,6 +1055,7 @@ def run(run):
     n_traj_runs = 0
     worst = {"rev": 0.0, "det": 0.0, "hastings": 0.0}
     jac_done = jac_skipped = jac_unresolved = jac_refined = 0
+    fail_planned = fail_effective = gave_up = loud = 0
     for case, r in results:
         counts[case["kind"]] = counts.get(case["kind"], 0) + 1
         k = case["kind"] + ":" + str(r["status"])
@@ -960,6 +1068,13 @@ def run(run):
                 distinct.add(("op", jdump(case)))
             elif case["kind"] == "mcmc" and "acc" in m:
                 distinct.add(("mcmc", round(m["acc"], 14)))
+        if case["kind"] == "op" and case["fail"] and r["status"] == "stable":
+            fail_planned += 1
+            want = min(case["fail"]["trials"], 10)
+            if m.get("nan_given", 0) == want or m.get("draws", 0) >= want + (1 if want < 10 else 0):
+                fail_effective += 1
+            gave_up += 1 if m.get("gave_up") else 0
+            loud += 1 if m.get("failed_loudly") else 0
         if "rev" in m:
             worst["rev"] = max(worst["rev"], m["rev"])
         if "det" in m:
@@ -978,8 +1093,8 @@ def run(run):
             if name in seen:
                 continue
             seen.add(name)
-            run.violation(case, f"{case}: {name}: {detail}", sig_of(case, name))
-    n_groups, n_points, o_skipped, o_worst = _order_checks(results, run.violation)
+            run.violation(dict(case, seed=seed), f"{case}: {name}: {detail}", sig_of(case, name))
+    ost = _order_checks(results, lambda c, d_, s_: run.violation(dict(c, seed=seed), d_, s_))
     if os.environ.get("C16_DUMP"):
         with open(os.environ["C16_DUMP"], "w") as fp:
             json.dump([[c, {"status": r["status"], "metrics": r["metrics"], "bad": r["bad"]}]
@@ -993,11 +1108,14 @@ def run(run):
     cov = {
         "evaluations": len(results),
         "distinct_nontrivial": len(distinct),
-        "rule": "traj: every target x mass(8) x eps(5) x L(6) x corner point; op: every target x mass x "
-                "(eps,L)(4) x answer(2) x {mass at construction, replaced} + every NaN position x {1,2,10} "
-                "failing trials; mcmc: every target x mass(3) x (eps,L)(3) x answer(2) x uniform just "
-                "below/above the oracle acceptance probability.  non-trivial = regular-regime elements "
-                "with pairwise different energy errors / acceptance probabilities / operator cases",
+        "rule": "traj: every target x mass(8; quick 6) x eps(5) x L(6) x corner point with the integrator constructed "
+                "with (eps, L), plus every target x mass x eps x L x {step size assigned, state_dict loaded, "
+                "tuned through the operator} on one rotating corner; op: every target x mass(8; quick 6) x (eps,L)(4) x "
+                "first answer(2) x {as constructed, mass matrix replaced, step size tuned, second step after an accepted / rejected first step} + every NaN position "
+                "of a trial x {1,2,10} failing trials (+ natural overflow failures on the gamma targets); mcmc: "
+                "every target x mass(3) x (eps,L)(3) x answer(2) x uniform just below/above the oracle "
+                "acceptance probability.  non-trivial = regular-regime elements with pairwise different energy "
+                "errors / acceptance probabilities / operator cases",
         "samples": samples,
         "exhaustive": True,
         "space_size": len(cases),
@@ -1005,15 +1123,21 @@ def run(run):
         "op_cases": counts.get("op", 0),
         "mcmc_cases": counts.get("mcmc", 0),
         "status_counts": status,
+        "op_failure_scenarios": fail_planned,
+        "op_failure_scenarios_in_which_the_planned_trials_failed": fail_effective,
+        "op_failure_scenarios_ending_without_proposal": gave_up,
+        "op_failure_scenarios_ending_in_an_exception": loud,
         "jacobians_evaluated": jac_done,
         "jacobians_skipped_amplification": jac_skipped,
         "jacobians_unresolved_by_finite_differences": jac_unresolved,
         "jacobians_needing_extrapolation": jac_refined,
-        "order_groups_evaluated": n_groups,
-        "order_points_evaluated": n_points,
-        "order_groups_below_roundoff": o_skipped,
-        "observed_order_min": round(o_worst[0], 4),
-        "observed_order_max": round(o_worst[1], 4),
+        "order_groups_evaluated": ost["groups"],
+        "order_points_evaluated": ost["points"],
+        "order_groups_below_roundoff": ost["skipped"],
+        "observed_group_order_min": round(ost["gmin"], 4),
+        "observed_group_order_max": round(ost["gmax"], 4),
+        "observed_point_order_min": round(ost["pmin"], 4),
+        "observed_point_order_max": round(ost["pmax"], 4),
         "worst_reversibility_over_tolerance": worst["rev"],
         "worst_abs_det_minus_1": worst["det"],
         "worst_hastings_over_tolerance": worst["hastings"],
@@ -1042,15 +1166,16 @@ def run(run):
 def replay(case):
     ref.self_test()
     tt.boot()
-    seed = int(os.environ.get("VERIF_SEED", "0") or 0)
+    seed = int(case.get("seed", os.environ.get("VERIF_SEED", "0") or 0))
+    case = {k: v for k, v in case.items() if k != "seed"}
     tab = _tab("thorough")
     out = []
     if case.get("group"):
         base = {k: v for k, v in case.items() if k != "group"}
         kind, d, split = tab[base["target"]]
         results = []
-        for k in range(16):
-            c = dict(base, corner=k, jac=False)
+        for k in corner_ids(d, "thorough"):
+            c = dict(base, corner=k, jac=False)  # all corners of the cell
             results.append((c, run_traj(c, tab, seed)))
         for c, r in results:
             for name, detail in r["bad"]:
@@ -1061,10 +1186,13 @@ def replay(case):
     for name, detail in r["bad"]:
         out.append({"case": case, "detail": f"{name}: {detail}", "sig": sig_of(case, name)})
     if case["kind"] == "traj" and "dH2" in r["metrics"]:
-        m = r["metrics"]
-        if abs(m["dH2"]) > 0 and abs(m["dH"]) > 1e-12 * (1 + abs(m["H0"])):
-            o = math.log2(abs(m["dH"]) / abs(m["dH2"]))
-            if not ORDER_POINT[0] <= o <= ORDER_POINT[1]:
-                out.append({"case": case, "detail": f"energy error {m['dH']:.6e} vs {m['dH2']:.6e} at eps/2: "
-                                                    f"order {o:.3f}", "sig": sig_of(case, "energy_error_order")})
+        # the order check needs the other corner points of the cell as yardstick
+        kind, d, split = tab[case["target"]]
+        cell = []
+        for k in corner_ids(d, "thorough"):
+            c = dict(case, corner=k, jac=False)
+            cell.append((c, r if k == case["corner"] else run_traj(c, tab, seed)))
+        found = []
+        _order_checks(cell, lambda c, d_, s: found.append({"case": c, "detail": d_, "sig": s}))
+        out += [v for v in found if v["case"].get("group") or v["case"]["corner"] == case["corner"]]
     return out
